@@ -136,6 +136,8 @@ impl Model {
 pub struct NewNode {
     pub class: String,
     pub name: String,
+    /// a UniqueId entry pushed onto the builder BEFORE the effective one (same key twice: the last one counts)
+    pub shadowed_uid: Option<UniqueId>,
     pub props: Vec<(String, MV)>,
     pub children: Vec<NewNode>,
     pub self_ref_prop: bool,
@@ -205,6 +207,9 @@ impl World {
         let id = m.next;
         m.next += 1;
         let mut props = BTreeMap::new();
+        if let Some(u) = n.shadowed_uid {
+            b.add_property("UniqueId", Variant::UniqueId(u));
+        }
         for (k, mv) in &n.props {
             let var = match mv {
                 MV::V(_) => unreachable!("NewNode props are refs and ids only"),
@@ -251,8 +256,13 @@ fn gen_newnode(ch: &mut dyn Chooser, w: &World, cfg: &Cfg, depth: usize, budget:
     let class = ["Folder", "Part", "ObjectValue", "Model"][ch.choose(4)].to_owned();
     let name = ["a", "b", "c"][ch.choose(3)].to_owned();
     let mut props = vec![];
+    let mut shadowed_uid = None;
     if cfg.uid_pool > 0 && ch.choose(3) != 0 {
         props.push(("UniqueId".to_owned(), MV::Uid(uid_of(ch.choose(cfg.uid_pool)))));
+        // builders may carry a key twice (with_properties(template) then with_property): the last entry is the value
+        if cfg.rich_props && ch.choose(5) == 0 {
+            shadowed_uid = Some(uid_of(ch.choose(cfg.uid_pool)));
+        }
     }
     let mut self_ref = false;
     if cfg.rich_props {
@@ -279,7 +289,7 @@ fn gen_newnode(ch: &mut dyn Chooser, w: &World, cfg: &Cfg, depth: usize, budget:
             children.push(gen_newnode(ch, w, cfg, depth + 1, budget));
         }
     }
-    NewNode { class, name, props, children, self_ref_prop: self_ref }
+    NewNode { class, name, shadowed_uid, props, children, self_ref_prop: self_ref }
 }
 
 fn gen_op(ch: &mut dyn Chooser, w: &World, cfg: &Cfg) -> Option<Op> {
@@ -409,7 +419,7 @@ fn all_ops(w: &World, cfg: &Cfg) -> Vec<Op> {
                     ops.push(Op::Insert {
                         dom: w.m.nodes[p].dom,
                         parent: *p,
-                        sub: NewNode { class: "Folder".into(), name: "n".into(), props, children: vec![], self_ref_prop: false },
+                        sub: NewNode { class: "Folder".into(), name: "n".into(), shadowed_uid: None, props, children: vec![], self_ref_prop: false },
                     });
                 }
             }
@@ -483,6 +493,10 @@ fn check_uid_rule(w: &mut World, d: usize, entering: &[(usize, UniqueId)], s_bef
                 out.push(v("C12", &format!("collision-kept:{}", opn), format!("{}: id {} was already held by the destination DOM but an entering instance kept it", opn, val)));
             }
         } else if kept != 1 {
+            if kept == 0 {
+                // also a C10 matter: the operation changed a property although nothing collided
+                out.push(v("C10", &format!("property-changed-without-collision:{}", opn), format!("{}: an entering instance's UniqueId {} was replaced although the destination did not hold it", opn, val)));
+            }
             out.push(v(
                 "C12",
                 &format!("{}:{}", if kept == 0 { "regenerated-without-collision" } else { "duplicate-kept" }, opn),
